@@ -544,6 +544,48 @@ func genCase(r *lib.RNG, wide bool) *Case {
 			c.Query = &slib.Node{Op: "and", Kids: k[:4]}
 		}
 	}
+	if ntags >= 2 && r.Chance(1, 8) {
+		// a NEGATED undecided tag whose definition refers to another undecided tag with a recorded (possibly stale)
+		// answer: what the manager leaves behind when an import stores a new version of a tagged stream — the
+		// accept table of the inlined inner tag gets a three-valued mask
+		// (kept small and free of protocol terms: the normal form of a negated inlined definition is exponential
+		// in the size of the definition and every flag condition costs a 65536-entry table per product, DESIGN 10.3)
+		inner, outer := c.Tags[ntags-2], c.Tags[ntags-1]
+		cheap := func(n *slib.Node) bool {
+			ok := true
+			n.Walk(func(k *slib.Node) {
+				if k.Op == "term" && k.Key == "protocol" {
+					ok = false
+				}
+			})
+			p, _ := dnfSize(n)
+			return ok && p <= 3
+		}
+		for !cheap(inner.Def) {
+			inner.Def = g.smallExpr(1, names[:ntags-2], true, 3)
+		}
+		tagSize[tagNames[ntags-2]], _ = dnfSize(inner.Def)
+		outer.Def = &slib.Node{Op: "term", Key: "tag", Tags: []string{names[ntags-2]}}
+		if r.Chance(1, 2) {
+			x := g.term(nil, false)
+			for p, _ := dnfSize(x); p != 1 || !cheap(x); p, _ = dnfSize(x) {
+				x = g.term(nil, false)
+			}
+			outer.Def = &slib.Node{Op: "and", Kids: []*slib.Node{outer.Def, x}}
+		}
+		tagSize[tagNames[ntags-1]], _ = dnfSize(outer.Def)
+		inner.Uncertain, outer.Uncertain = append([]uint64(nil), g.ids...), append([]uint64(nil), g.ids...)
+		inner.AgeSec, outer.AgeSec = 0, 0
+		neg := &slib.Node{Op: "not", Kids: []*slib.Node{{Op: "term", Key: "tag", Tags: []string{names[ntags-1]}}}}
+		c.Query = neg
+		if r.Chance(1, 2) {
+			x := g.term(nil, false)
+			for !cheap(x) {
+				x = g.term(nil, false)
+			}
+			c.Query = &slib.Node{Op: lib.Pick(r, []string{"and", "or"}), Kids: []*slib.Node{neg, x}}
+		}
+	}
 	if r.Chance(1, 10) {
 		// the shape of DESIGN F5: a lookup-able part OR-ed with a part that has no lookup
 		c.Query = &slib.Node{Op: "or", Kids: []*slib.Node{g.term(nil, false), {Op: "term", Key: "id", Nums: []slib.Range{g.numRange([]int64{int64(lib.Pick(r, g.ids))})}}}}
